@@ -174,6 +174,14 @@ GenLineCmds(ed, sd, t) ==
     ELSE IF Profile = "glob" /\ t % 10 = 5 /\ NLines(ed) >= 3
     THEN <<[k |-> "g", loc |-> <<[nm(1) EXCEPT !.sep = ","], nm(2)>>, re |-> <<46>>,
             cmds |-> <<[k |-> "s", loc |-> <<>>, re |-> <<36>>, rep |-> <<88>>, g |-> FALSE]>>]>>
+    (* ... and a global whose list removes the visited line and the one before it and then moves the current line
+       forward again (put / print): the marked lines that follow slide below the index of the visited one *)
+    ELSE IF Profile = "glob" /\ t % 10 = 6 /\ NLines(ed) >= 4
+    THEN LET back == [k |-> "d", loc |-> <<[a |-> [b |-> "none", n |-> 0, m |-> 0, re |-> <<>>, offs |-> <<-1>>], sep |-> ","],
+                                          [a |-> [b |-> "dot", n |-> 0, m |-> 0, re |-> <<>>, offs |-> <<>>], sep |-> ""]>>, reg |-> 0]
+             fwd == IF Pick(sd, t, 1, 2) = 0 THEN [k |-> "pu", loc |-> <<>>, reg |-> 0] ELSE [k |-> "p", loc |-> RelLoc(1)]
+         IN <<[k |-> "g", loc |-> <<[nm(2) EXCEPT !.sep = ","], [a |-> [b |-> "last", n |-> 0, m |-> 0, re |-> <<>>, offs |-> <<>>], sep |-> ""]>>,
+               re |-> <<46>>, cmds |-> <<[k |-> "s", loc |-> <<>>, re |-> <<36>>, rep |-> <<33>>, g |-> FALSE], back, fwd>>]>>
     ELSE
     (* "rs" and "!" take the rest of their line; the commands of @ are a command line of their own (own undo step) *)
     (* after u / redo the rows of the marks are not constrained: no second command (it may address a mark) on that line *)
